@@ -259,7 +259,7 @@ CHECK = {
                     "std::pow(x,2) is modelled as x*x"],
     "run_timeout": 900,
     "manifest": {
-        "text": "SYNTACTIC TIE: toECEF and the whole of toWGS84 (latitude loop included, as a fuelled fix) are re-translated from the clang AST of the current source into Gallina terms on every run (translate/srcfuns.py -> coq/gen/SrcFuns.v) and proved equal, over the reals, to the model functions the theorems are about. Coq theorems over the reals about a model of EarthEllipsoid/ECEFConverter: toECEF is foot point on the ellipsoid plus "
+        "text": "SYNTACTIC TIE: toECEF and the whole of toWGS84 (latitude loop included, as a fuelled fix) are re-translated from the clang AST of the current source into Gallina terms on every run (translate/srcfuns.py -> coq/gen/SrcFunsC01.v) and proved equal, over the reals, to the model functions the theorems are about. Coq theorems over the reals about a model of EarthEllipsoid/ECEFConverter: toECEF is foot point on the ellipsoid plus "
                 "h times the unit normal, the normal being parallel to the gradient of the ellipsoid's quadratic form; longitude "
                 "recovered exactly by atan2 on (-pi,pi]; the true latitude is a fixed point of the iteration body and the loop started "
                 "there stops at once. LATITUDE LOOP: the body g(lat) = atan((Z/norm)/(1 - a e2 cos lat/(norm W))) is differentiated "
